@@ -772,6 +772,7 @@ RULES = [
 from ..selftest import M  # noqa: E402
 F = 'txtorcon/torconfig.py'
 MUTANTS = [
+    M('helper-signature-changed-one-site', F, "    def _find_real_name(self, name):\n", "    def _find_real_name(self, name, strict):\n", ['R-X']),
     M('event-skips-pending-options', F, "            real_name = self._find_real_name(k)\n            if real_name in self.list_parsers:", "            real_name = self._find_real_name(k)\n            if real_name in self.unsaved:\n                continue\n            if real_name in self.list_parsers:", ['R11.12']),
     M('single-default-line-as-str', F, "                    parsed = defaults.get(rn, [])\n                    if not isinstance(parsed, list):\n                        parsed = [parsed]  # just one default line\n", "                    parsed = defaults.get(rn, [])\n", ['R11.11']),
     M('unset-scalar-keeps-previous-option', F, "                    parsed = DEFAULT_VALUE\n                else:\n                    parsed = self.parsers[rn].parse(v)", "                    pass\n                else:\n                    parsed = self.parsers[rn].parse(v)", ['R11.13']),
